@@ -1002,8 +1002,6 @@ def symbolic_for_each(ctx, s, clos):
     # which heap leaves changed?
     changed = []
     for root, v in sub.state.store.items():
-        if root[0] == 'L':
-            continue
         v0 = st0.store.get(root)
         if v0 is None or v0 is v:
             continue
